@@ -714,7 +714,7 @@ func genSeqls(r *Rand, n int, thorough bool, emit func(string)) {
 			if strings.Count(parent, "/") >= 3 {
 				parent = ""
 			}
-			name := r.Pick([]string{"a", "b", "shots", "sh010.comp", ".hid", "v1.2", "x y", "d1", ".cache", "e"})
+			name := r.Pick([]string{"a", "b", "shots", "sh010.comp", ".hid", "v1.2", "x y", "d1", ".cache", "e", "..data", "...", "..2024_x"})
 			p := name
 			if parent != "" {
 				p = parent + "/" + name
@@ -754,7 +754,7 @@ func genSeqls(r *Rand, n int, thorough bool, emit func(string)) {
 			// the tree root only and never point at an ancestor (no aliasing, no cycles)
 			if d == "" && len(dirs) > 0 && r.Chance(1, 2) && !cyclic {
 				tgt := dirs[r.Intn(len(dirs))]
-				lp := r.Pick([]string{"lnk", ".hlnk", "link2"})
+				lp := r.Pick([]string{"lnk", ".hlnk", "link2", ".current", "..ln"})
 				if !linked[tgt] && !seen[lp] {
 					linked[tgt] = true
 					seen[lp] = true
